@@ -188,13 +188,23 @@ def observe(run, make, vectors, case, stats, label, cycles_per_vector=1):
             ex = stats.setdefault('sim_raised_examples', [])
             if len(ex) < 5:
                 ex.append('%s: %r' % (label, e))
+            # whatever crashed (library or harness), an out-of-range value that is visible on a wire now must be reported
+            try:
+                mon.scan('after_error')
+            except Exception:
+                pass
         by = stats.setdefault('raw_by_class', {})
         for k, v in rec.raw_oor_by_class.items():
             by[k] = by.get(k, 0) + v
         stats['icontract_present'] = max(stats.get('icontract_present', 0), int(rec.icontract))
-    mon.judge_recorder(rec)
-    mon.captured()
-    P().Wire.prepared = []
+    stats['synthetic_settles'] = stats.get('synthetic_settles', 0) + rec.synthetic_settles
+    for step in (lambda: mon.judge_recorder(rec), mon.captured):
+        try:
+            step()
+        except Exception as e:      # a judging step must never hide the others
+            stats['judge_raised'] = stats.get('judge_raised', 0) + 1
+            stats.setdefault('sim_raised_examples', []).append('%s: judge %r' % (label, e))
+    hooks.drop_pending()
     stats['designs'] = stats.get('designs', 0) + 1
     return per_vector
 
@@ -317,6 +327,24 @@ def special_plans():
         for mode in (0, 1):
             out.append(('double_put_%d_%d_m%d' % (aw, rw, mode), _plan(dict(a=aw, r=rw), ['a'],
                         [N('dp', 'DoublePut', dict(a='a', r='r'), dict(mode=mode)), N('cap', 'StreamCapture', dict(x='r'))])))
+    # user-style leaves with an InOut port driving a bidirectional wire: clocked (prepare) and combinational (put);
+    # the pad is read back by a BidirBuf that never drives it, captured by a StreamCapture and a Waveform
+    for pw, aw in [(4, 8), (1, 3), (7, 7), (3, 16), (8, 4)]:
+        for step in (7, -3, (1 << pw) + 1, -(1 << (pw + 2)) - 1):
+            for use_a in (False, True):
+                wires = dict(pad=pw, pin=pw + 2, pout=pw, poe=1, a=aw)
+                blocks = [N('pd', 'PadPrepare', dict(pad='pad', a='a' if use_a else None), dict(step=step, start=0)),
+                          C('c0', 'Constant', (pw, 0), ['pout']), C('c1', 'Constant', (1, 0), ['poe']),
+                          N('bb', 'BidirBuf', dict(pout='pout', poe='poe', pin='pin', bidir='pad'), {}),
+                          N('cap', 'StreamCapture', dict(x='pad')), N('wv', 'Waveform', dict(w0='pad', w1='pin'))]
+                out.append(('pad_prepare_%d_%d_s%d_%d' % (pw, aw, step, use_a), _plan(wires, ['a'], blocks, bidir=('pad',))))
+        for k, off in ((3, 5), (1, 1 << (pw + 1)), ((1 << pw) + 1, 0), (-1, 0)):
+            wires = dict(pad=pw, a=aw, pin=pw + 1, pout=pw, poe=1)
+            blocks = [N('pp', 'PadPut', dict(pad='pad', a='a'), dict(k=k, off=off)),
+                      C('c0', 'Constant', (pw, 0), ['pout']), C('c1', 'Constant', (1, 0), ['poe']),
+                      N('bb', 'BidirBuf', dict(pout='pout', poe='poe', pin='pin', bidir='pad'), {}),
+                      N('cap', 'StreamCapture', dict(x='pad')), N('wv', 'Waveform', dict(w0='pad'))]
+            out.append(('pad_put_%d_%d_k%d_o%d' % (pw, aw, k, off), _plan(wires, ['a'], blocks, bidir=('pad',))))
     for w in (1, 2, 5):
         out.append(('counter_%d' % w, _plan(dict(rs=1, inc=1, q=w), ['rs', 'inc'], [N('k', 'Counter', dict(reset='rs', inc='inc', q='q'), {}), N('wv', 'Waveform', dict(w0='q'))])))
         out.append(('modcounter_%d' % w, _plan(dict(rs=1, inc=1, q=w, co=1), ['rs', 'inc'], [N('k', 'ModuloCounter', dict(reset='rs', inc='inc', q='q', carryout='co'), dict(mod=(1 << w) + 1))])))
@@ -436,8 +464,10 @@ def post_merge(run, tier, seed):
         run.inconclusive.append('watchdog: %d catalogue / %d composition cases skipped' % (c.get('catalogue_skipped_time', 0), c.get('compositions_skipped_time', 0)))
     if c.get('build_failed'):
         run.inconclusive.append('%d designs did not build: %s' % (c['build_failed'], run.extra.get('build_failed_examples', [])[:2]))
-    if c.get('sim_raised', 0) > 0:
-        run.extra['note_sim_raised'] = 'designs whose simulation raised were observed up to that point'
+    if c.get('sim_raised', 0) > 0 or c.get('judge_raised', 0) > 0:
+        run.extra['note_sim_raised'] = 'designs whose simulation raised were observed up to that point and once more after the error'
+        run.inconclusive.append('%d designs raised during simulation / %d judging steps raised: %s' % (
+            c.get('sim_raised', 0), c.get('judge_raised', 0), run.extra.get('sim_raised_examples', [])[:2]))
     ic = run.extra.get('icontract_layer', {})
     if not c.get('icontract_evaluations'):
         run.assume('icontract was not importable in this run: the ensure layer evaluated 0 times; the verdict rests on the E1 post-conditions and the scans')
